@@ -13,7 +13,7 @@ type Tok struct {
 }
 
 // Lex splits a statement according to PostgreSQL's lexical structure (standard_conforming_strings = on):
-// '...' with '' escapes, E'...' with backslash escapes, $tag$...$tag$, "quoted identifiers", -- and /* */ comments
+// '...' with ” escapes, E'...' with backslash escapes, $tag$...$tag$, "quoted identifiers", -- and /* */ comments
 // (nested), numbers, identifiers/keywords, operators and punctuation. An unterminated literal is one token to the end.
 func Lex(s string) []Tok {
 	var out []Tok
